@@ -10,3 +10,14 @@ open Just.Props.C14
 #print axioms quiet_changes_no_execution
 #print axioms noEcho_keeps_everything_else
 #print axioms dry_run_matches_real
+#print axioms evalA_dry
+#print axioms evalList_dry
+#print axioms bindParams_dry
+#print axioms runLines_dry
+#print axioms evalLines_dry
+#print axioms execs_map_echo
+#print axioms runBody_dry
+#print axioms execs_promptOf
+#print axioms dry_run_all
+#print axioms runAssigns_dry
+#print axioms runInvs_dry
